@@ -883,7 +883,17 @@ def rule_input_index_bounded(ctx: Ctx, rep: Report) -> None:
     up = any(has(cs2, idx, ">=", f"len({l_})") is not None or has(cs2, idx, ">", f"len({l_}) - 1") is not None for l_ in lists)
     rep.ob(rule, "partial_sig_verify:index", bool(lists) and lo and up, f2.where(), f"`{idx}` is held to the signers' lists {sorted(set(lists))}" if lists and lo and up else
            f"`{idx}` indexes {sorted(set(lists))} unasked (refusals: {[c.show() for c in cs2][:3]}): a signer index past the lists is an IndexError out of a predicate")
-    rep.floor(rule, 3)
+    # ... and of the two psbt functions that index the input maps with a caller number (a negative one
+    # is answered from the end of the list, silently)
+    for q3 in ("btclib.psbt.psbt.ecdsa_sig_hash", "btclib.psbt.psbt.taproot_sig_hash"):
+        f3 = ctx.func(q3)
+        ps, ix = f3.params()[0], f3.params()[1]
+        cs3 = refusal_constraints(ctx, f3)
+        lo3 = has_bound(cs3, "<", 0, subject=ix) is not None or has_bound(cs3, "<=", -1, subject=ix) is not None
+        up3 = has(cs3, ix, ">=", f"len({ps}.inputs)") is not None or has(cs3, ix, ">", f"len({ps}.inputs) - 1") is not None
+        rep.ob(rule, f"{f3.name}:index", lo3 and up3, f3.where(), f"`{ix}` is held to the psbt's inputs" if lo3 and up3 else
+               f"`{ps}.inputs[{ix}]` is read with `{ix}` unasked (refusals: {[c.show() for c in cs3][:3]}): past the end an IndexError, below zero the hash of another input")
+    rep.floor(rule, 5)
 
 
 RULES = [
